@@ -125,6 +125,25 @@ def _plain_signature(name):
     return _sig_cache[k]
 
 
+def positional(call):
+    """the call with its keyword arguments moved to their positions, as far as they continue the positional ones (for evaluators that
+    read arguments by index: isvector(x, dim=3) -> isvector(x, 3)); the call itself when nothing is known about the callee"""
+    f = call.func
+    nm = f.id if isinstance(f, ast.Name) else (f.attr if isinstance(f, ast.Attribute) else None)
+    if nm is None or not call.keywords or any(k.arg is None for k in call.keywords) or any(isinstance(a, ast.Starred) for a in call.args):
+        return call
+    sig = _plain_signature(nm)
+    if sig is None:
+        return call
+    pos = list(call.args)
+    by = {k.arg: k for k in call.keywords}
+    while len(pos) < len(sig) and sig[len(pos)] in by:
+        pos.append(by.pop(sig[len(pos)]).value)
+    if len(pos) == len(call.args):
+        return call
+    return ast.copy_location(ast.Call(func=f, args=pos, keywords=list(by.values())), call)
+
+
 def parse_pat(s):
     return ast.parse(s, mode='eval').body
 
@@ -316,7 +335,11 @@ def _m(p, e, b):
             return None
         # one calling convention for package functions: `tr2rpy(x, 'deg')` and `tr2rpy(x, unit='deg')` are the same call -- when
         # the callee is a uniquely named plain function of the package, both sides are bound to its parameter names first
-        sig = _plain_signature(p.func.id) if isinstance(p.func, ast.Name) and isinstance(e.func, ast.Name) and p.func.id == e.func.id else None
+        def short(f):
+            return f.id if isinstance(f, ast.Name) else (f.attr if isinstance(f, ast.Attribute) and isinstance(f.value, (ast.Name, ast.Attribute)) else None)
+        # (also for module-qualified callees that are spelt the same on both sides: base.isvector(x, 3) / base.isvector(x, dim=3))
+        sig = _plain_signature(short(p.func)) if short(p.func) is not None and short(p.func) == short(e.func) and \
+            (isinstance(p.func, ast.Name) or not (isinstance(p.func.value, ast.Name) and p.func.value.id in ('self', 'cls', 'left', 'right'))) else None
         if sig is not None and not any(isinstance(a, ast.Starred) for a in list(p.args) + list(e.args)) and \
                 not any(k.arg is None for k in list(p.keywords) + list(e.keywords)) and len(p.args) <= len(sig) and len(e.args) <= len(sig):
             pb = dict(zip(sig, p.args))
